@@ -162,6 +162,7 @@ func (fr *Frame) call(site ssa.Instruction, c *ssa.CallCommon, reach T, st *Stat
 			panic(engineErr("needs-spec", "dynamic call of function value %s at %s in %s", c.Value.Name(), ex.pos(site.Pos()), fr.fn))
 		}
 	}
+	fr.lockReacquire(key, c, reach, st)
 	b := fr.argBindings(c, args)
 	for i, r := range res {
 		b[fmt.Sprintf("result%d", i)] = Val{t: r, typ: sig.Results().At(i).Type()}
@@ -853,4 +854,79 @@ func (fr *Frame) havocClosureEffects(site ssa.Instruction, mc *ssa.MakeClosure, 
 		st.m[k] = ex.fresh(k, ex.comps[k])
 	}
 	ex.abstractions["closure passed to "+fr.callName[site]+" at "+ex.pos(instrPos(site))+": every component it assigns is havoced (it may run any number of times)"] = true
+}
+
+
+// lockReacquire: `guarded_by T.f mu ... reacquire`. The contract of a function is read at its first acquisition of the
+// lock (its linearisation point). Once the function has released x.mu, other goroutines may run: when it acquires
+// x.mu AGAIN, the guarded field x.f (for a map or slice: its contents as well) holds arbitrary values. A function that
+// splits a check and the update it justifies over two critical sections therefore cannot prove its postcondition.
+func (fr *Frame) lockReacquire(key string, c *ssa.CallCommon, reach T, st *State) {
+	ex := fr.ex
+	isLock := strings.HasSuffix(key, "sync.Mutex).Lock") || strings.HasSuffix(key, "sync.RWMutex).Lock") || strings.HasSuffix(key, "sync.RWMutex).RLock")
+	isUnlock := strings.HasSuffix(key, "sync.Mutex).Unlock") || strings.HasSuffix(key, "sync.RWMutex).Unlock") || strings.HasSuffix(key, "sync.RWMutex).RUnlock")
+	if (!isLock && !isUnlock) || len(c.Args) == 0 || len(ex.L.contracts.Guarded) == 0 {
+		return
+	}
+	fa, ok := c.Args[0].(*ssa.FieldAddr)
+	if !ok {
+		return
+	}
+	pt, ok := fa.X.Type().Underlying().(*types.Pointer)
+	if !ok {
+		return
+	}
+	nt, ok := types.Unalias(pt.Elem()).(*types.Named)
+	if !ok || nt.Obj().Pkg() == nil {
+		return
+	}
+	stt, ok := nt.Underlying().(*types.Struct)
+	if !ok {
+		return
+	}
+	muName := stt.Field(fa.Field).Name()
+	prefix := nt.Obj().Pkg().Path() + "." + nt.Obj().Name() + "."
+	var fields []int
+	for i := 0; i < stt.NumFields(); i++ {
+		if g, ok := ex.L.contracts.Guarded[prefix+stt.Field(i).Name()]; ok && g.Mutex == muName && contains(g.Props, "reacquire") {
+			fields = append(fields, i)
+		}
+	}
+	if len(fields) == 0 {
+		return
+	}
+	if _, isLV := fr.lvals[fa.X]; isLV {
+		return
+	}
+	owner := fr.val(fa.X)
+	mref := ex.subRef(owner, nt, fa.Field)
+	comp := ex.comp("Released$mutex", arraySort("Ref", "Bool"))
+	if isUnlock {
+		ex.set(st, comp, store(ex.get(st, comp), mref, tTrue))
+		return
+	}
+	cond := ex.define("reacq", and(reach, sel(ex.get(st, comp), mref)))
+	ex.abstractions["re-acquisition of "+nt.Obj().Name()+"."+muName+" after a release: guarded fields are arbitrary (other goroutines may have run)"] = true
+	base := &LV{kind: "struct", ref: owner, typ: nt}
+	for _, i := range fields {
+		lv := ex.fieldLV(base, i)
+		ft := stt.Field(i).Type()
+		cur := ex.load(st, lv)
+		switch u := ft.Underlying().(type) {
+		case *types.Map:
+			has, val, ln := ex.mapComps(u)
+			ks, vs := ex.sorts.sortOf(u.Key()), ex.sorts.sortOf(u.Elem())
+			hc, vc, lc := ex.get(st, has), ex.get(st, val), ex.get(st, ln)
+			ex.set(st, has, store(hc, cur, ite(cond, ex.fresh("rqhas", arraySort(ks, "Bool")), sel(hc, cur))))
+			ex.set(st, val, store(vc, cur, ite(cond, ex.fresh("rqval", arraySort(ks, vs)), sel(vc, cur))))
+			l := ex.fresh("rqlen", "Int")
+			ex.assume(tTrue, app("Bool", ">=", l, intLit(0)))
+			ex.set(st, ln, store(lc, cur, ite(cond, l, sel(lc, cur))))
+		default:
+			if lv.kind == "comp" {
+				nv := ex.freshOfType("rq", ft, reach, nil)
+				ex.storeLV(st, lv, ite(cond, nv, cur))
+			}
+		}
+	}
 }
